@@ -7,7 +7,10 @@ import roles, shared, symex
 VD = r"std::collections::VecDeque::<T, A>::(\w+)$|std::collections::VecDeque::<T>::(\w+)$"
 DEQUE_FORBIDDEN = {"push_front", "pop_back", "insert", "remove", "swap", "swap_remove_back", "swap_remove_front", "drain", "retain",
                    "retain_mut", "clear", "truncate", "rotate_left", "rotate_right", "append", "split_off", "make_contiguous", "resize",
-                   "resize_with", "extend", "iter_mut", "get_mut", "front_mut", "back_mut", "as_mut_slices", "range_mut", "sort", "binary_search"}
+                   "resize_with", "extend", "iter_mut", "get_mut", "front_mut", "back_mut", "as_mut_slices", "range_mut", "sort", "binary_search",
+                   # looking without taking: a decision made on a peeked element (e.g. leaving an unblock token at the head) breaks the
+                   # one-token-one-receiver accounting and FIFO delivery
+                   "front", "back", "get", "iter", "contains", "range", "as_slices", "index"}
 FORBIDDEN_UNDER_LOCK = {"BLOCK-IO", "CHAN-RECV", "WAIT-TURN-W", "WAIT-TURN-R", "SLEEP", "JOIN", "SPAWN", "USER-CALLBACK", "DYN-UNKNOWN", "FNPTR", "FS", "NET-CTL"}
 
 
@@ -32,13 +35,21 @@ def control_switch(f, after_bb):
     -> (switch_bb, {variant: target}, none_target)"""
     t = f.term(after_bb)
     dl = t["dest"]["l"]
+    # locals the popped value (or its payload) is moved into
+    derived = {dl}
+    work = [dl]
+    while work:
+        l = work.pop()
+        for u in f.uses().get(l, []):
+            if u[0] == "stmt" and u[4] in ("move", "copy") and not u[3]["lhs"]["p"] and u[3]["lhs"]["l"] not in derived:
+                derived.add(u[3]["lhs"]["l"]); work.append(u[3]["lhs"]["l"])
     none_t = None
     for bb in sorted(f.reach([t["target"]], unwind=False)):
         sw = switch_on_discr(f, bb)
         if not sw:
             continue
         rv, m, otherwise, rest = sw
-        if rv["pl"]["l"] != dl:
+        if rv["pl"]["l"] not in derived:
             continue
         if rv.get("adt") == "std::option::Option" and not rv["pl"]["p"] and none_t is None:
             none_t = m.get("None", otherwise if "None" in rest else None)
@@ -146,8 +157,8 @@ def rule_fifo_census(ctx, rule):
             n += 1
             ctx.call_sites += 1
             name = m.group(1)
-            ctx.ob(rule, "%s|deque-%s" % (f.id, name), "the queue is only appended at the back and consumed at the front (FIFO); no other mutator is used",
-                   name not in DEQUE_FORBIDDEN, f.loc(bb), None if name not in DEQUE_FORBIDDEN else "forbidden deque mutator %s" % name)
+            ctx.ob(rule, "%s|deque-%s" % (f.id, name), "the queue is only appended at the back and consumed at the front (FIFO); no other mutator and no peeking accessor is used",
+                   name not in DEQUE_FORBIDDEN, f.loc(bb), None if name not in DEQUE_FORBIDDEN else "forbidden deque operation %s" % name)
     # the queue field is reachable only from MessagesQueue's own methods
     for f, bb, kind in ctx.facts.field_reads(MQ, "queue"):
         ctx.ob(rule, "queue-field|%s" % f.id, "the deque is touched only by MessagesQueue's methods", f.rec.get("impl_self_adt") == MQ, f.loc(bb))
